@@ -54,6 +54,19 @@ fn junk() -> BoxedStrategy<Vec<u8>> {
         4 => (vec(prop::sample::select(vec![b'D', b'L', b'T', 1u8, 0, 9]), 0..40), tail.clone()).prop_map(|(mut a, t)| { a.extend(t); a }),
         3 => (vec(any::<u8>(), 0..60), tail).prop_map(|(mut a, t)| { a.extend(t); a }),
         1 => (any::<u64>(), 0usize..5000, 0u8..6).prop_map(|(s, l, a)| expand_bytes(s, l, a)),
+        // a complete stored record whose marker got damaged (one to four bytes of "DLT\x01" changed), optionally with
+        // a few more bytes around it
+        2 => (g::message(g::MsgParams { storage: g::StorageMode::Always, large: false, ..Default::default() }), vec((0usize..4, any::<u8>()), 1..3), vec(any::<u8>(), 0..4), vec(any::<u8>(), 0..4))
+            .prop_map(|(m, dmg, pre, post)| {
+                let mut e = refcodec::encode(&m);
+                for (k, v) in dmg {
+                    e[k] = if v == e[k] { v ^ 1 } else { v };
+                }
+                let mut j = pre;
+                j.extend(e);
+                j.extend(post);
+                j
+            }),
     ]
     .prop_map(scrub)
     .boxed()
@@ -242,7 +255,7 @@ pub fn strategy() -> impl Strategy<Value = Case> {
             }),
             (any::<u64>(), 1_048_000usize..2_600_000, 1u8..6, stored(), g::suffix(), fidx()).prop_map(|(s, l, a, msg, suffix, filter)| Case::Parse { junk: scrub(expand_bytes(s, l, a)), msg, suffix, filter }),
         ],
-        600 => (junk(), prop_oneof![8 => stored(), 1 => g::message(g::MsgParams { storage: g::StorageMode::Always, ..Default::default() })], g::suffix(), fidx())
+        600 => (junk(), prop_oneof![8 => stored(), 1 => g::message(g::MsgParams { storage: g::StorageMode::Always, ..Default::default() })], prop_oneof![3 => g::suffix(), 1 => (vec(any::<u8>(), 1..20), stored()).prop_map(|(mut j, m)| { j.extend(refcodec::encode(&m)); j })], fidx())
             .prop_map(|(junk, msg, suffix, filter)| Case::Parse { junk, msg, suffix, filter }),
         300 => (vec(stored(), 1..6), vec(junk(), 7), fidx()).prop_map(|(msgs, junks, filter)| Case::Stream { msgs, junks, filter }),
     ]
